@@ -20,6 +20,24 @@ def key_of(motifs):
     return json.dumps(motifs)
 
 
+def ref_shape(build, vs):
+    """the motif a topology's documented build callback makes of an ORDERED group of stubs (slot i <- vs[i])"""
+    vs = list(vs)
+    if build == "clique":
+        es = list(itertools.combinations(vs, 2))
+    elif build == "cycle":
+        es = list(zip(vs, vs[1:])) + [(vs[0], vs[-1])]
+    else:
+        raise ValueError(build)
+    return sorted(sorted(e) for e in es)
+
+
+def built_key(build_of, groups_with_edges):
+    """a placement AS BUILT: per motif its topology and the multiset of its edges (which slot a stub fills is visible here
+    for motifs that are not symmetric in their slots, e.g. cycles of 4 or more vertices)"""
+    return json.dumps([[t, es] for t, es in groups_with_edges])
+
+
 class C03(Prop):
     pid = "C03"
     rule = ("(a) every valid randbelow draw sequence for every list length n <= 5 (6 thorough) through the real random.shuffle; "
@@ -61,12 +79,25 @@ class C03(Prop):
             if tot <= (720 if tier == "quick" else 5040):
                 break
         kind = "fast" if rng.random() < 0.7 else "custom"
-        case = {"kind": kind, "jds": jds, "sizes": sizes, "builds": ["clique"] * T, "handshake": True}
+        builds = ["clique"] * T
+        if i % 4 == 1:
+            # a slot-asymmetric motif from the library's own generators: one 4- or 5-cycle; which stub fills which slot matters
+            T, N = 1 if rng.random() < 0.6 else 2, rng.randint(4, 6)
+            sizes = [rng.choice([4, 4, 5])] + ([2] if T == 2 else [])
+            jds = [[0] * T for _ in range(N)]
+            for _ in range(sizes[0]):
+                jds[rng.randrange(N)][0] += 1
+            if T == 2:
+                for _ in range(2):
+                    jds[rng.randrange(N)][1] += 1
+            builds = ["cycle"] + ["clique"] * (T - 1)
+            kind = "fast" if rng.random() < 0.7 else "custom"
+        case = {"kind": kind, "jds": jds, "sizes": sizes, "builds": builds, "handshake": True}
         if kind == "fast":
             case["names"] = [f"t{k}" for k in range(T)]
         else:
             case["orbits"] = [[k] for k in range(T)]
-            case["names"] = [[f"t{k}"] * (sizes[k] * (sizes[k] - 1) // 2) for k in range(T)]
+            case["names"] = [[f"t{k}"] * (sizes[k] if builds[k] == "cycle" else sizes[k] * (sizes[k] - 1) // 2) for k in range(T)]
         return case
 
     def exhaustive(self, tier):
@@ -94,6 +125,8 @@ class C03(Prop):
         per_top = [all_valid_draws(sum(r[k] for r in jds)) for k in range(T)]
         outs = []
         hist = collections.Counter()
+        hist_b, ref_b = collections.Counter(), collections.Counter()
+        builds = case["builds"]
         unscripted = 0
         missing = set()
         for tup in itertools.product(*per_top):
@@ -103,6 +136,7 @@ class C03(Prop):
             m = [[x["top"], x["verts"]] for x in o["calls"]]
             outs.append(m)
             hist[key_of(m)] += 1
+            hist_b[built_key(builds, [[x["top"], sorted(sorted(e) for e in x["result"])] for x in o["calls"]])] += 1
             unscripted += o["unscripted_shuffles"]
             missing |= set(k for k in o["shuffles_missing"] if len(c["draws"][k]) > 0)
         # reference: push-forward of the uniform measure on permutations of labelled stubs
@@ -128,7 +162,9 @@ class C03(Prop):
                     for ch in reversed(chunks):
                         groups.append([j, ch])
             ref[key_of(groups)] += 1
+            ref_b[built_key(builds, [[t, ref_shape(builds[t], g)] for t, g in groups])] += 1
         return {"outs": outs, "hist": sorted(hist.items()), "ref": sorted(ref.items()),
+                "hist_built": sorted(hist_b.items()), "ref_built": sorted(ref_b.items()),
                 "n_tuples": len(outs), "unscripted_shuffles": unscripted, "shuffles_missing": sorted(missing)}
 
     def request(self, case, obs):
@@ -177,6 +213,16 @@ class C03(Prop):
                 k = next(k for k in set(h) | set(r) if h.get(k) != r.get(k))
                 f.append(f"placement-not-uniform: placement {k} arises from {h.get(k, 0)} of {obs['n_tuples']} draw tuples, "
                          f"configuration-model measure gives {r.get(k, 0)}")
+        if not f and obs["hist_built"] != obs["ref_built"]:
+            h, r = dict(obs["hist_built"]), dict(obs["ref_built"])
+            unreachable = [k for k in r if k not in h]
+            if unreachable:
+                f.append(f"built-placement-unreachable: {len(unreachable)} of {len(r)} placements of stubs in motif slots are never "
+                         f"built, e.g. {unreachable[0]}")
+            else:
+                k = next(k for k in set(h) | set(r) if h.get(k) != r.get(k))
+                f.append(f"built-placement-not-uniform: built placement {k} arises from {h.get(k, 0)} of {obs['n_tuples']} draw "
+                         f"tuples, configuration-model measure gives {r.get(k, 0)}")
         return f
 
     def nontrivial(self, case, obs):
